@@ -832,6 +832,14 @@ fn main() {
         dist(&format!("pair.ty{}.N{}", ty, n));
         do_case(pair_case(ty, &x, &y));
         do_case(pair_case(ty, &x, &x));
+        // many mismatching positions: every one, exactly 512 (a multiple of 256), exactly 256 at the end
+        let next = |v: i128| alpha[(alpha.iter().position(|l| *l == v).unwrap() + 1) % alpha.len()];
+        let all: Vec<i128> = x.iter().map(|v| next(*v)).collect();
+        let first512: Vec<i128> = x.iter().enumerate().map(|(i, v)| if i < 512 { next(*v) } else { *v }).collect();
+        let last256: Vec<i128> = x.iter().enumerate().map(|(i, v)| if i >= n - 256 { next(*v) } else { *v }).collect();
+        for z in [all, first512, last256] {
+            do_case(pair_case(ty, &x, &z));
+        }
     }
     flush_dist();
 }
